@@ -7,6 +7,7 @@ import (
 	"go/types"
 	"sort"
 	"strings"
+	"time"
 
 	"golang.org/x/tools/go/ssa"
 )
@@ -166,6 +167,7 @@ type Evaluator struct {
 	symObjs  map[string]*Obj // one abstract object per symbolic pointer path
 	globals  map[*ssa.Global]*Obj
 	Exceeded bool // the instruction budget was exhausted: results are incomplete
+	started  time.Time
 	curCond  *Term
 	RootRets []RetAlt
 	// symbolicElems: a symbolic index into a local array that holds only zero
@@ -211,6 +213,9 @@ func (ev *Evaluator) symObj(st *State, path string, t types.Type) *Obj {
 	}
 	return o
 }
+
+// evalWallLimit bounds one evaluation in wall-clock time.
+var evalWallLimit = 20 * time.Second
 
 func (ev *Evaluator) maxSteps() int {
 	if ev.budget > 0 {
@@ -885,6 +890,16 @@ func (ev *Evaluator) opaque(name string, args []Val, res *types.Tuple, st *State
 
 func (ev *Evaluator) instr(fr *frame, ins ssa.Instruction, st *State) {
 	ev.steps++
+	// wall-clock guard: path conditions can grow faster than the step count suggests; past
+	// the limit nothing more is inlined or unrolled and the evaluation is marked incomplete
+	if ev.steps&63 == 0 {
+		if ev.started.IsZero() {
+			ev.started = time.Now()
+		} else if !ev.Exceeded && time.Since(ev.started) > evalWallLimit {
+			ev.Exceeded = true
+			ev.budget = 1
+		}
+	}
 	switch x := ins.(type) {
 	case *ssa.Alloc:
 		o := ev.siteObj(x, x.Comment)
